@@ -192,6 +192,8 @@ def run(an: Analysis, rep):
     rep.run(r025, an, rep)
     rep.run(r026, an, rep)
     rep.run(r027, an, rep)
+    from .common import local_memo_rule
+    rep.run(local_memo_rule, an, rep, "R02.M", ["from_code"])
     from .common import SharedRules
     from . import c10
     from . import c13
@@ -277,6 +279,14 @@ def r022_noarg(an, rep, V, f):
     test = arm.test
     env = module_consts(an, f.module.name, V)
     env.update({"HAVE_ARGUMENT": ref["HAVE_ARGUMENT"], "dis.HAVE_ARGUMENT": ref["HAVE_ARGUMENT"], "opcode.HAVE_ARGUMENT": ref["HAVE_ARGUMENT"]})
+    names_by_code = {v: k for k, v in ref["opmap"].items()}
+    for mod in ("dis", "opcode"):
+        env[mod + ".opname"] = names_by_code
+        env[mod + ".opmap"] = dict(ref["opmap"])
+        env[mod + ".EXTENDED_ARG"] = ref["EXTENDED_ARG"]
+        for k in ref:
+            if k.startswith("has"):
+                env[mod + "." + k] = list(ref[k])
     for nm in {x.id for x in ast.walk(test) if isinstance(x, ast.Name)} - {op}:
         if nm not in env:
             tab = opcode_table(an, f, ast.Name(nm, ast.Load()), V)
